@@ -9,10 +9,13 @@ documents the case and result format; in mode `det` this driver must print the i
                                (1 = PutB succeeded)
   free <maxBlockSize> <throttle> <seed> <failpct> <prologue>|<worker 0 ops>|<worker 1 ops>|...
       the model prints what the sequential specification gives each worker (C13_linearizable).
+  cow <op;op;...>   memSegment Truncate/WriteAt/Slice/hand-off/drop against the heap model
+      (Model/C13_CowRt.lean, capacity of append([]byte(nil), …) = Go's size classes)
 -/
 import ArvVerif.Base.MD5
 import ArvVerif.Base.Loop
 import ArvVerif.Model.C13
+import ArvVerif.Model.C13_CowRt
 open ArvVerif ArvVerif.C08 ArvVerif.C13
 
 def md5Loc (b : Bytes) : Loc :=
@@ -312,6 +315,81 @@ def freeLine (streams : List String) : String :=
   | none => "bad-op"
   | some (s, outs) => "|".intercalate outs ++ "|final=" ++ snapStr (snapshot id s)
 
+/-! cow mode: memSegment against the heap model (Model/C13_CowRt.lean) -/
+
+/-- Go 1.23 allocator size classes up to 32 KiB (runtime/sizeclasses.go): the capacity of
+`append([]byte(nil), buf...)` is the length rounded up to one of these, above that to whole 8 KiB
+pages. A fact about the runtime, not about Arvados; the `cow` correspondence run compares every
+capacity, so a wrong entry shows up as a disagreement. -/
+def goClasses : List Nat :=
+  [8, 16, 24, 32, 48, 64, 80, 96, 112, 128, 144, 160, 176, 192, 208, 224, 240, 256, 288, 320, 352, 384, 416,
+   448, 480, 512, 576, 640, 704, 768, 896, 1024, 1152, 1280, 1408, 1536, 1792, 2048, 2304, 2688, 3072, 3200,
+   3456, 4096, 4864, 5376, 6144, 6528, 6784, 6912, 8192, 9472, 9728, 10240, 10880, 12288, 13568, 14336,
+   16384, 18432, 19072, 20480, 21760, 24576, 27264, 28672, 32768]
+
+def goAppendCap (n : Nat) : Nat :=
+  if n == 0 then 0 else
+  match goClasses.find? (fun c => n ≤ c) with
+  | some c => c
+  | none => (n + 8191) / 8192 * 8192
+
+def cowContent (b : Bytes) : String :=
+  if b.length ≤ 24 then hexOfBytes b
+  else "k" ++ toString (b.zipIdx.foldl (fun acc xi => (acc + (xi.2 + 1) * xi.1.toNat) % 1000003) 0)
+
+def parseCowOp (nshared : Nat) (s : String) : Option Cow.Op :=
+  match s.splitOn "," with
+  | ["t", i, n] =>
+    match i.toNat?, n.toNat? with
+    | some i, some n => some (Cow.Op.truncate i n)
+    | _, _ => none
+  | ["w", i, hex, off] =>
+    match i.toNat?, parseHex hex, off.toNat? with
+    | some i, some p, some off => some (Cow.Op.writeAt i p off)
+    | _, _, _ => none
+  | ["s", i, off, len] =>
+    match i.toNat?, off.toNat?, len.toNat? with
+    | some i, some off, some len => some (Cow.Op.slice i off len)
+    | _, _, _ => none
+  | ["h", i] => i.toNat?.map (fun i => Cow.Op.handOff i nshared)
+  | ["d", i] => i.toNat?.map Cow.Op.drop
+  | _ => none
+
+/-- allocation name: `z` for capacity 0, else `a<k>`, k = rank of first appearance -/
+def allocName (ids : List Nat) (cap ptr : Nat) : List Nat × String :=
+  if cap == 0 then (ids, "z") else
+  match ids.findIdx? (· == ptr) with
+  | some k => (ids, "a" ++ toString k)
+  | none => (ids ++ [ptr], "a" ++ toString ids.length)
+
+def cowToken (st : Cow.State) (ids : List Nat) : List Nat × String :=
+  let (ids1, ss) := st.segs.foldl (fun (acc : List Nat × List String) sg =>
+    let (ids', a) := allocName acc.1 sg.cap sg.ptr
+    (ids', acc.2 ++ [a ++ "." ++ toString sg.len ++ "." ++ toString sg.cap ++ "." ++
+      (if sg.flushing.isSome then "f" else "n") ++ "." ++ cowContent (Cow.bufOf st sg)])) (ids, [])
+  let (ids2, hs) := st.shared.reverse.foldl (fun (acc : List Nat × List String) sh =>
+    let buf := (st.heap[sh.ptr]?).getD []
+    let (ids', a) := allocName acc.1 buf.length sh.ptr
+    (ids', acc.2 ++ [a ++ "." ++ toString sh.len ++ "." ++ (if buf.take sh.len == sh.snap then "1" else "0")])) (ids1, [])
+  (ids2, (if ss.isEmpty then "-" else "/".intercalate ss) ++ ":" ++ (if hs.isEmpty then "-" else "/".intercalate hs))
+
+def cowRun : List String → Cow.State → List Nat → List String → Option (List String)
+  | [], _, _, acc => some acc.reverse
+  | o :: os, st, ids, acc =>
+    match parseCowOp st.shared.length o with
+    | none => none
+    | some op =>
+      match Cow.stepRt goAppendCap st op with
+      | none => if (os.all (fun o => (parseCowOp 0 o).isSome)) then some (("panic" :: acc).reverse) else none
+      | some st' =>
+        let (ids', tok) := cowToken st' ids
+        cowRun os st' ids' (tok :: acc)
+
+def cowLine (ops : List String) : String :=
+  match cowRun ops Cow.initRt [] [] with
+  | some toks => ";".intercalate toks
+  | none => "bad-op"
+
 def stepLine (line : String) : String :=
   match fields line with
   | ["det", max, evs] =>
@@ -322,6 +400,7 @@ def stepLine (line : String) : String :=
        match (evs.splitOn ";").mapM parseDEv with
        | some evs => detLine max evs
        | none => "bad-op")
+  | ["cow", ops] => cowLine (ops.splitOn ";")
   | ["free", max, thr, seed, failpct, streams] =>
     (match max.toNat?, thr.toNat?, seed.toNat?, failpct.toNat? with
      | some (_ + 1), some (_ + 1), some _, some _ => freeLine (streams.splitOn "|")
